@@ -245,7 +245,7 @@ pub fn array_readl_delta_time(a: &Vec<u8>, pos: &mut usize) -> usize {
     while *pos < a.len() {
         let cv = a[*pos] as usize;
         *pos += 1;
-        if cv < 0x7F {
+        if cv < 0x80 {
             v = v << 7 | cv;
             break;
         }
